@@ -280,6 +280,16 @@ fn ts_cases(ctx: &mut Ctx) {
         let t2 = text.clone();
         let r = catch(move || varpulis_parser::helpers::parse_timestamp(&t2));
         ctx.case(&format!("ts {} {} {} {} {}", y, m, d, tod, tz), &match r { Ok(v) => v.to_string(), Err(_) => "PANIC".to_string() });
+        // the same literal as text: the model splits it itself
+        let t3 = text.clone();
+        let r = catch(move || varpulis_parser::helpers::parse_timestamp(&t3));
+        ctx.case(&format!("tt {}", enc(&text)), &match r { Ok(v) => v.to_string(), Err(_) => "PANIC".to_string() });
+    }
+    // texts the grammar cannot produce (the helper is public): mirror only
+    for w in ["@2024-01-01T", "@2024-01", "@x-y-z", "2024-01-01", "@2024-01-01T1", "@2024-01-01T\u{e9}0:00:00", "@2024-01-01T10:30", "@2024-01-01T10:30:00-05", "@2024-01-01T10:30:00+aa:00", "@-2024-01-01", "@2024-+3-01", ""] {
+        let t3 = w.to_string();
+        let r = catch(move || varpulis_parser::helpers::parse_timestamp(&t3));
+        ctx.case(&format!("tt {}", enc(w)), &match r { Ok(v) => v.to_string(), Err(_) => "PANIC".to_string() });
     }
 }
 
